@@ -8,7 +8,6 @@ and the traces (chosen step, enabled candidates, returned values, verdict) must 
 independent reference evaluates the contracts of the property directly on the implementation's trace.
 A second, uncontrolled stress run on real pthreads (a TEST) guards the shim."""
 import hashlib
-import os
 import common as C
 
 PROPERTIES = ["C11"]
@@ -392,7 +391,6 @@ def contracts(sc, tr):
     if errs:
         return errs[0]
     bump(f"verdict {sc.prim} {tr.verdict}")
-    last = len(tr.steps)
     INF = 10 ** 9
     if sc.prim == "sig":
         sets = [c for c in calls if c.op == "set"]
@@ -469,7 +467,6 @@ class Explorer:
         self.keys = set()
         self.runs = 0
         self.verdicts = {}
-        self.kinds = {"spurious/EINTR/time-out alternatives taken": 0, "clock ticks taken": 0}
         self.max_points = 0
 
     def _capture(self, h, o):
@@ -620,9 +617,9 @@ def check(ctx):
         corpus = C.load_corpus(ctx.prop)
         ex.run(corpus)
         # 2. exhaustive schedules of the first `depth` scheduling points
-        depth = 7 if quick else 11
-        cap = 1200 if quick else 30000
-        nscen = 28 if quick else 60
+        depth = 8 if quick else 11
+        cap = 1500 if quick else 30000
+        nscen = 32 if quick else 60
         scens = [Scen.parse(l) for l in FIXED_SCENARIOS] + [gen_scen(ctx.rng) for _ in range(nscen)]
         if not proof_ok:
             ctx.log("proof stage broken: searching harder for a failing input")
@@ -639,9 +636,9 @@ def check(ctx):
         ctx.log(f"<= {ndev} deviations at any depth: {sum(dtotal.values())} runs ({ndcomplete} scenarios enumerated completely), "
                 f"{len(ex.diffs)} disagreement(s)")
         # 3. random schedules over more scenarios
-        rscens = scens + [gen_scen(ctx.rng) for _ in range(60 if quick else 400)]
+        rscens = scens + [gen_scen(ctx.rng) for _ in range(70 if quick else 400)]
         before = ex.runs
-        ex.random(rscens, 60 if quick else 300)
+        ex.random(rscens, 80 if quick else 300)
         ctx.log(f"random schedules: {ex.runs - before} runs over {len(rscens)} scenarios, {len(ex.diffs)} disagreement(s) in total")
         prims = {}
         ops = {}
@@ -664,7 +661,7 @@ def check(ctx):
                                        f"{ndcomplete} scenarios completely, the others capped at {dcap}")
         ctx.cov["rule"] = (f"corpus ({len(corpus)}) + {len(FIXED_SCENARIOS)} fixed + {len(scens) - len(FIXED_SCENARIOS)} generated scenarios (2-4 threads, one primitive, "
                            f"well-formed programs) x exhaustive schedules of the first {depth} points (cap {cap}/scenario) and all schedules with <= {ndev} deviations from the default policy at any depth (cap {dcap}) + {len(rscens)} scenarios x "
-                           f"{60 if quick else 300} uniformly random schedules (xorshift64, all candidates); every run = one forked process of the real sources "
+                           f"{80 if quick else 300} uniformly random schedules (xorshift64, all candidates); every run = one forked process of the real sources "
                            "over the simulated POSIX layer, replayed on the Lean model; distinct_nontrivial = distinct (scenario, per-step return events, verdict) "
                            "among runs in which at least two threads took steps")
         ctx.cov["samples"] = [scens[len(FIXED_SCENARIOS)].line(), scens[-1].line(), rscens[-1].line()] + FIXED_SCENARIOS[:2]
